@@ -512,9 +512,18 @@ func (t *Target) gnmiUpdate(n *pb.Notification) (*ctree.Leaf, error) {
 		suffix = nil
 	}
 	path := joinPrefixAndPath(n.Prefix, suffix)
+	if len(path) == 0 {
+		return nil, errors.New("update with an empty path")
+	}
 	if path[0] == metadata.Root {
 		realData = false
 		u := n.Update[0]
+		if len(path) < 2 {
+			return nil, fmt.Errorf("metadata path %q names no entry", path)
+		}
+		if u.GetVal() == nil {
+			return nil, fmt.Errorf("%v : has no value", path)
+		}
 		switch path[1] {
 		case metadata.Sync:
 			var ok bool
